@@ -152,6 +152,35 @@ def check_c14(ctx, R):
     R.count("compound constructors (R1c)", n_ctor)
     R.floor("IR mutators with shared writes (R1)", 40)
     R.floor("compound constructors (R1c)", 6)
+    # R1d: a call to another mutator whose membership guard the caller has not established is a refusal point of the caller
+    from .ir_structure import pairing
+    from ..typestate import is_public_entry
+    R.rule("R1d", "cascade calls: when shared state was already written, the membership guard of a called mutator is implied by what the caller checked")
+    PA = pairing(ctx)
+    n_calls = 0
+    for key, f in sorted(PA.funcs.items()):
+        if is_clone_family(f) or f.name == "__init__":
+            continue
+        res = PA.results[key]
+        fe = res["fe"]
+        guarded_calls = set()
+        for evs in fe.by_node.values():
+            for ev in evs:
+                if ev.kind == "call" and not ev.ctor:
+                    for t in ev.targets or []:
+                        if t.key in PA.funcs and PA._cache.get("guards:" + t.key):
+                            guarded_calls.add(id(ev))
+        seen = {}
+        for ev, t, miss, dirty in res.get("cascade", []):
+            seen.setdefault((id(ev), miss), (ev, t, miss, dirty))
+        n_calls += len(guarded_calls)
+        for (i, miss), (ev, t, miss, dirty) in sorted(seen.items(), key=lambda kv: kv[0][1]):
+            R.bad("R1d", "%s|%s|%s" % (f.key, t.qualname, short(ev.node, 40)), f.loc(ev.stmt),
+                  "%s calls `%s` after shared state was already written (%s), but %s and nothing the caller checked implies it: the call can be "
+                  "refused half-way, leaving the earlier writes in place" % (f.qualname, short(ev.node, 40), "; ".join(sorted(dirty))[:120], miss))
+        if guarded_calls and not seen:
+            R.ok("R1d", "%s: %d cascade call(s) with established guards" % (f.qualname, len(guarded_calls)), f.loc())
+    R.count("cascade calls to guarded mutators after a write (R1d)", n_calls)
     R.count("refusable event kinds", len(M.refusable))
     R.floor("refusable event kinds", 6)
     R.note("refusable kinds: %s" % ", ".join(sorted(M.refusable)))
